@@ -1370,11 +1370,13 @@ class Process(StateMachine, persistence.Savable, metaclass=ProcessStateMachineMe
             if self.has_terminated():
                 # Terminated while the step was in flight (e.g. through fail()), nothing left to do
                 pass
-            elif self._interrupt_action is not None and not self._interrupt_action.cancelled():
-                self._interrupt_action.run(next_state)
             else:
-                # Everything nominal so transition to the next state
-                self.transition_to(next_state)
+                if self._interrupt_action is not None and not self._interrupt_action.cancelled():
+                    self._interrupt_action.run(next_state)
+                else:
+                    # Everything nominal so transition to the next state
+                    self.transition_to(next_state)
+
                 if (
                     self._interrupt_action is not None
                     and not self._interrupt_action.done()
